@@ -95,8 +95,11 @@ where
             } else {
                 WriteResult::RequiresEvent
             }
-        } else {
+        } else if guard.is_empty() {
             WriteResult::NoData
+        } else {
+            // The pending entry produced no output (the key has no value) but more remains to be done.
+            WriteResult::RequiresEvent
         }
     }
 }
